@@ -27,6 +27,7 @@ func configsFor(s *world.Schema, ft world.DocFeatures, withAbstractFS bool) []na
 			namedCfg{"RS/native", world.Config{Strat: world.RS, Car: world.CarNative, Schema: s}},
 			namedCfg{"AS/slice", world.Config{Strat: world.AS, Car: world.CarSlice, Schema: s}},
 			namedCfg{"AS/native", world.Config{Strat: world.AS, Car: world.CarNative, Schema: s}},
+			namedCfg{"AS/listresolver", world.Config{Strat: world.AS, Car: world.CarListRes, Schema: s}},
 		)
 	}
 	if withAbstractFS || (!ft.AbstractCond && !ft.ConcreteUnderInterface) {
